@@ -606,8 +606,22 @@ func init() {
 	register(&PropDef{
 		ID: "C18",
 		Gen: func(t *rapid.T, tier string) *world.Plan {
-			if rapid.IntRange(0, 3).Draw(t, "generic") == 0 {
-				return genPlan(t, genOpts{sched: true, maxNet: 2, maxLN: 1, silence: true, healAlways: true, inject: []string{"cancel", "coop"}, maxInject: 2, maxCrashes: 1})
+			switch rapid.IntRange(0, 5).Draw(t, "generic") {
+			case 0:
+				p := genPlan(t, genOpts{sched: true, maxNet: 2, maxLN: 1, silence: true, healAlways: true, inject: []string{"cancel", "coop"}, maxInject: 2, maxCrashes: 1})
+				p.Heal.Canary = true
+				return p
+			case 1, 2:
+				// notification handling must stay alive: several swaps in one node, slow or held
+				// claim payments (the confirmation callback runs while blocks keep arriving),
+				// quick blocks, no restart afterwards; the canary registration at the end must be served
+				p := genPlan(t, genOpts{sched: true, maxLN: 2, secondOp: true, peerOps: true, reorgs: true, duration: []int{300, 600},
+					backends: []string{"elementsd", "elementsd", "lwk"}, maxFaults: 1,
+					sites: []string{"btc.rpc.gettxout", "lbtc.rpc.gettxout", "btc.rpc.height", "lbtc.rpc.height", "btc.rpc.getrawtx", "lbtc.rpc.getrawtx", "electrum.history"}})
+				p.Scn.BlockEverySec = pick(t, "fastblocks", []int{2, 5, 5, 20})
+				p.Scn.LNLatencyMs = pick(t, "slowln", []int{200, 3000, 12000, 30000})
+				p.Heal = world.HealCfg{On: true, Restarts: 0, Blocks: pick(t, "healblocks", []int{150, 1200}), Seconds: 300, Canary: true}
+				return p
 			}
 			chain := pick(t, "chain", []string{"btc", "lbtc"})
 			p := genPlan(t, genOpts{chains: []string{chain}, types: []string{"swapin"}, sched: true, duration: []int{600}})
@@ -634,7 +648,7 @@ func init() {
 				p.SchedRate = pick(t, "rate2", []int{100, 400})
 			}
 			p.AdvCfg = cfg
-			p.Heal = world.HealCfg{On: true, Restarts: 0, Blocks: 150, Seconds: 300}
+			p.Heal = world.HealCfg{On: true, Restarts: 0, Blocks: 150, Seconds: 300, Canary: true}
 			return p
 		},
 		Monitors:   world.MonitorsFor("C18"),
